@@ -15,6 +15,20 @@ TRUSTED = [
 ]
 
 
+XSET = set("abcdefghijklmnopqrstuvwxyzABCDEFGHIJKLMNOPQRSTUVWXYZ0123456789/-?:().,'+ \n\r")
+EXTRAS = set("{}%&*;<=>@[]_$!\"#|")
+
+
+def offending(c):
+    """characters of a content that no SWIFT x component may hold"""
+    return {ch for ch in c if ch not in XSET}
+
+
+def is_extra(ch):
+    """the characters parse_swift_chars takes beyond the x set: its list of specials and every non-ASCII letter / digit"""
+    return ch in EXTRAS or (ord(ch) > 127 and ch.isalnum())
+
+
 def classify(T, why, content, lib_ok):
     """decidable classes of listed deviations: returns a match kind or None"""
     return None
@@ -91,23 +105,43 @@ def run(ctx):
             kinds[why.split(":")[0]] = kinds.get(why.split(":")[0], 0) + 1
             continue
         hitk = None
+        direction = "accepts" if lib_ok else "rejects"
+        wk = re.sub(r"^as-\w+:", "", re.sub(r":\d+$", "", why))
         if why.startswith("corpus:"):
             stem = why[len("corpus:"):].rsplit(".", 1)[0]
-            kk = [k for k in known if k["id"] == stem and k.get("match", {}).get("direction") == ("accepts" if lib_ok else "rejects")]
+            kk = [k for k in known if k["id"] == stem and k.get("match", {}).get("direction") == direction]
             if kk:
                 hitk = kk[0]["id"]
         for k in known:
             if hitk:
                 break
             mm = k.get("match", {})
-            if mm.get("kind") == "format_deviation" and re.fullmatch(mm.get("type_re", ".*"), T) and mm.get("direction") == ("accepts" if lib_ok else "rejects") \
-               and re.search(mm.get("content_re", ""), c, re.S) and re.fullmatch(mm.get("why_re", ".*"), re.sub(r":\d+$", "", why), re.S):
-                hitk = k["id"]; break
+            if mm.get("kind") != "format_deviation" or mm.get("direction") != direction:
+                continue
+            if "types" in mm and T not in mm["types"]:
+                continue
+            if "why" in mm and wk not in mm["why"]:
+                continue
+            if mm.get("content_re") and not re.search(mm["content_re"], c, re.S):
+                continue
+            if mm.get("chars"):
+                off = offending(c)
+                if not off:
+                    continue
+                if mm["chars"] == "extras" and not all(is_extra(ch) for ch in off):
+                    continue
+                if mm["chars"] == "lower" and not all(ch.islower() and ch.isascii() for ch in off):
+                    continue
+            hitk = k["id"]
         if hitk:
             ctx.known_hits[hitk] = ctx.known_hits.get(hitk, 0) + 1
         else:
-            key = (T, "accepts" if lib_ok else "rejects", why.split(":")[0] + (":" + why.split(":")[1] if why.startswith(("len", "as-")) and ":" in why else ""))
+            key = (T, direction, wk)
             dev.setdefault(key, []).append((c, case))
+    with open(os.path.join(ctx.work, "deviation_cases.jsonl"), "w") as fh:
+        for (T, direction, w), lst in sorted(dev.items()):
+            for c, case in lst:
+                fh.write(json.dumps({"T": T, "dir": direction, "why": w, "c": c}) + "\n")
     with open(os.path.join(ctx.work, "deviations.txt"), "w") as fh:
         for (T, direction, w), lst in sorted(dev.items()):
             fh.write("%s\t%s\t%s\t%d\t%r\n" % (T, direction, w, len(lst), [x[0][:50] for x in lst[:3]]))
